@@ -67,7 +67,7 @@ impl<S: Num> MT<S> {
     /// identity on q qubits with e^{i pi num/den} at |1..1><1..1|
     pub fn cphase(num: i64, den: i64, q: usize) -> MT<S> {
         let all = (1usize << q) - 1;
-        let mut t = MT::ident(q);
+        let mut t: MT<S> = MT::ident(q);
         let top = (all << q) | all;
         t.data[top] = t.data[top].mul(&S::from_phase(num, den));
         t
